@@ -69,7 +69,7 @@ DECIDING = ['M1_nonneg', 'M2_const_gap2duct', 'M2_const_duct2gap',
             'U1_apply_is_matvec', 'U3_apply_integral',
             'cov_split_corner_asym_effective', 'cov_pair_refined',
             'cov_pair_shifted', 'cov_pair_corner_only_region']
-CASE_TIMEOUT = {'quick': 120, 'thorough': 300}
+CASE_TIMEOUT = {'quick': 120, 'thorough': 900}
 BUDGET = {'quick': 600, 'thorough': 3000}
 EXHAUSTIVE = {'quick': False, 'thorough': False}
 ASSUMPTIONS = ['numpy float64 arithmetic',
@@ -118,6 +118,11 @@ def cases(tier, seed):
                 'seed': [seed, 6, 0]})
     out.append({'name': 'single-pin-probe', 'kind': 'nr1',
                 'seed': [seed, 7, 0]})
+    if tier == 'thorough':
+        # the repository's own test-suite as one more workload: the map
+        # contract on every _map_asm2gap call its tests make
+        out.insert(0, {'name': 'repo-tests', 'kind': 'repotests',
+                       'seed': [seed, 8, 0]})
     return out
 
 
@@ -800,6 +805,16 @@ def run_case(case):
     res = Result(case)
     rng = np.random.default_rng(case['seed'])
     kind = case['kind']
+    if kind == 'repotests':
+        got, tail = drive.run_repo_tests(['c10'])
+        if 'c10' not in got:
+            res.status('error', 'test-suite run left no monitor output: '
+                       + tail)
+            return res
+        res.d.update({k: got['c10'][k] for k in ('viol', 'counts', 'stats')})
+        res.tag('repo_tests_workload')
+        res.sample({'case': case, 'pytest': tail})
+        return res
     if kind == 'witness':
         run_witness(case, res, rng)
         res.sample({'case': case, 'xb_reg': WITNESS_REG,
